@@ -531,6 +531,51 @@ def confCell (tainted : Bool) : Num → Cell
   | .val q => if tainted then .raw q else .fixed4 (fmt4 q)
   | _ => .empty
 
+/-! #### `blob_to_df`'s substring-based column typing
+
+`blob_to_df` turns a column into a pandas `category` when its NAME contains one
+of four words; `DataFrame.to_csv(float_format='%.4f')` does not format a
+categorical column.  Column names are real text here (the rest of the model
+keeps strings as ids). -/
+
+/-- `'label' in col or 'name' in col or 'alias' in col or 'assignment' in col` -/
+def taintWords : List String := ["label", "name", "alias", "assignment"]
+
+/-- `w in s` (Python substring test) on character lists -/
+def infixB (w : List Char) : List Char → Bool
+  | [] => w.isEmpty
+  | c :: s => w.isPrefixOf (c :: s) || infixB w s
+
+/-- `w in s` -/
+def strContains (s w : String) : Bool := infixB w.toList s.toList
+
+/-- the column becomes categorical -/
+def colIsCategory (col : String) : Bool := taintWords.any (strContains col)
+
+/-- the JSON key of the confidence (`confidence_key`) -/
+def ConfKey.keyName : ConfKey → String
+  | .bootstrappingProbability => "bootstrapping_probability"
+  | .avgCorrelation => "avg_correlation"
+
+/-- the CSV label of the confidence (`confidence_label`) -/
+def ConfKey.label : ConfKey → String
+  | .bootstrappingProbability => "bootstrapping_probability"
+  | .avgCorrelation => "correlation_coefficient"
+
+/-- the dataframe column holding the confidence of a level when `blob_to_df`
+types the columns: `f"{readable_level}_{element}"` (before `blob_to_csv`
+renames it to `f"{readable_level}_{confidence_label}"`) -/
+def dfConfColumn (readable : String) (ck : ConfKey) : String :=
+  readable ++ "_" ++ ck.keyName
+
+def csvConfColumn (readable : String) (ck : ConfKey) : String :=
+  readable ++ "_" ++ ck.label
+
+/-- the levels whose confidence column is categorical, from the text of the
+readable level names -/
+def taintOf (readableText : Lvl → String) (ck : ConfKey) (hierarchy : List Lvl) : List Lvl :=
+  hierarchy.filter (fun l => colIsCategory (dfConfColumn (readableText l) ck))
+
 inductive ColKind where
   | label | name | alias | conf
   deriving DecidableEq, Repr, Inhabited
